@@ -20,6 +20,8 @@ CFG = {
                           "RpmVerif.C10.historyF_verify", "RpmVerif.C10.historyF_verify_none", "RpmVerif.C10.historyF_keyids",
                           "RpmVerif.C10.historyF_legacy", "RpmVerif.C10.history_verify_discharged", "RpmVerif.C10.history_keyids_discharged",
                           "RpmVerif.C10.history_legacy_discharged", "RpmVerif.C10.pgp_history_verify", "RpmVerif.C10.pgp_history_keyids",
+                          # the two mirrors of verify_signature (C10's verifyWith, C02's verifySignatureS) are one function (AUDIT2 a7)
+                          "RpmVerif.C10.verifyWith_eq_verifySignatureS",
                           "RpmVerif.Pipeline.build_metadata_wf", "RpmVerif.Pipeline.build_payload_digest_ok", "RpmVerif.Pipeline.build_unsigned",
                           "RpmVerif.Pipeline.built_history_total", "RpmVerif.Pipeline.built_history_digests",
                           "RpmVerif.Pipeline.built_history_verify", "RpmVerif.Pipeline.built_history_verify_none",
@@ -44,6 +46,9 @@ CFG = {
             "(no packet: NoSignatureFound; a DSA packet: UnsupportedPGPKeyType) — after each the state must be what it was; instants outside 0..2^32 "
             "(the unwrap panics before the signer is asked: observed `P:<op>`, predicted by the model, judged dontcare — the property speaks of valid "
             "operations; same defect class as the known finding C17 timestamp-setter-panic, label `tsoutofrange(timestamp-setter-panic)`). "
+            "Step W = Package::write_file to a fresh path + Package::open of that file (the other sink / source kind of write + re-parse): from every start a,W / W,a for a in "
+            "{sR,sP,sE,sC,c}, a,W,b (a rotating fifth in quick, all 25 in thorough) and 11 fixed histories (W,W; sE,W,sC,W; sP,W,w; nE,W; sE,xP,W ...); the model computes it through "
+            "Io.writeFile 8192 (BufWriter around an accepting file) and Io.parseChunked under 8192-byte chunks (equal to writeParse by C14.write_file_then_open). "
             "Four more start packages (latin1, noncanon, swapped, extratag): the built package with a main header that is valid but not what the library "
             "itself lays out (non-UTF-8 byte in a string; slack bytes after the store; data of two entries swapped; an extra tag below 1000), which a "
             "sign / clear that re-built the main header would silently rewrite. Table ties: sgbuild / sgnew / vfload for every algorithm number 0..255 "
@@ -102,7 +107,10 @@ CFG = {
                   "configuration pgp::Signer::sign assembles has exactly one Issuer and one IssuerFingerprint sub-packet and the given creation time "
                   "(config_one_issuer, config_one_fingerprint, config_created_eq), timestamp_opt(..).unwrap() cannot panic for a u32 (timestamp_opt_total); hence "
                   "IssuerOk / LegacyOk / AlgOk are theorems for every PgpScheme with ParseSeal (pgp_issuerOk, pgp_legacyOk, pgp_algOk, pgp_history_verify, "
-                  "pgp_history_keyids).",
+                  "pgp_history_keyids). verifyWith — this property's mirror of Package::verify_signature — IS C02's verifySignatureS at the stateless verifier object of the key "
+                  "and the scheme's base64 decoder, result and error class (verifyWith_eq_verifySignatureS): one function, two views; C02's theorems apply to it (used by "
+                  "C02.tamper_rejected_build_sign). signature_key_ids narrows the issuer count to u32 with an unwrap (Sign.issuerCountErr), unreachable under "
+                  "SigScheme.IssuerSmall (C04.oneIssuer_total / oneIssuer_u32_overflow).",
     "level_note": "Trusted: Lean kernel; model fidelity as exercised (every record of every enumerated history predicted); the pgp crate behind the SigScheme "
                   "hypotheses (exercised with four real keys, gpgv as independent oracle in the thorough tier); hash crates.",
 }
